@@ -91,6 +91,7 @@ class FramedBuffer:
     Whether the read succeeds is recorded in the path condition as `get(buf, index) is Some` (indexing panics where `get`
     answers None).  The TLV parser's result is assumed not to be Ok: only the paths after a parser failure are of interest."""
     GET = 'core::slice::<impl [T]>::get'
+    FIRST, SPLIT_FIRST = 'core::slice::<impl [T]>::first', 'core::slice::<impl [T]>::split_first'
     def __init__(self, buf, x, parser):
         self.buf, self.x, self.parser = buf, x, parser
     def octet(self, k):
@@ -112,12 +113,21 @@ class FramedBuffer:
         return None
     def index(self, I, a, b, node, st):
         return self.read('#index', [a, b], node, st, I) if a == self.buf else None
+    def elem(self, v, i, from_end):
+        # an element a slice pattern binds by position (the pattern matched: the buffer is known to hold it): octet i of the buffer
+        return self.octet(i) if v == self.buf and not from_end else None
     def __call__(self, I, cal, args, node, st):
         return self.read(cal, args, node, st, I)
     def read(self, cal, args, node, st, I):
         if cal == self.parser:
             t = ('call', cal, tuple(args), node.get('id'))
             return [Out('val', t, st.event(('call', cal, tuple(args), node)).assume(('is', t, 'Ok'), False))]
+        if len(args) == 1 and args[0] == self.buf and cal in (self.FIRST, self.SPLIT_FIRST):
+            # first() = get(0); split_first() = Some((octet 0, the buffer without it)) exactly when get(0) is Some
+            probe = ('call', self.GET, (self.buf, ('lit', 0)), None)
+            val = self.octet(0) if cal == self.FIRST else ('tuple', (self.octet(0), absx.subslice_term(self.buf, 1, 0)))
+            return [Out('val', ('ctor', 'Some', (val,)) if there else ('ctor', 'None', ()), s)
+                    for there, s in I.decide(('is', probe, 'Some'), st.event(('call', cal, tuple(args), node)))]
         if len(args) != 2 or args[0] != self.buf or not (cal == '#index' or cal == self.GET):
             return None
         bd = self.bounds(args[1])
@@ -186,6 +196,10 @@ class HeaderClass:
             return Lin(self.x) if t[2] == 1 else Lin(0, {('B', t[2]): 1})
         if k == 'call' and t[1].rsplit('::', 1)[-1] in ('len', 'remaining') and len(t[2]) == 1 and t[2][0] == self.buf:
             return Lin(0, {'L': 1})
+        if k == 'call' and t[1].rsplit('::', 1)[-1] in ('len', 'input_len') and len(t[2]) == 1 and t[2][0][0] == 'subslice' and t[2][0][1] == self.buf:
+            # the buffer without its first a and last b octets (what `rest @ ..` of a slice pattern that matched is bound to: the
+            # buffer holds at least a + b octets there) has len(buf) - a - b octets
+            return Lin(-(t[2][0][2] + t[2][0][3]), {'L': 1})
         if k == 'cast':
             if t[1][0] == 'bin' and len(t[1]) == 4:
                 # a built-in operation computed in type t[2] (FramedInterp records the type of every one): its mathematical result,
@@ -295,6 +309,9 @@ class HeaderClass:
                     out.append(Lin(need - 1, {'L': -1}))
             if a[0] == 'call' and a[1].rsplit('::', 1)[-1] == 'is_empty' and len(a[2]) == 1 and a[2][0] == self.buf:
                 out.append(Lin(0, {'L': -1}) if truth else Lin(-1, {'L': 1}))
+            if a[0] == 'call' and a[1].rsplit('::', 1)[-1] == 'is_empty' and len(a[2]) == 1 and a[2][0][0] == 'subslice' and a[2][0][1] == self.buf:
+                k = a[2][0][2] + a[2][0][3]          # (see lin: such a sub-slice has len(buf) - k octets)
+                out.append(Lin(k, {'L': -1}) if truth else Lin(-k - 1, {'L': 1}))
         for a, truth in pc:
             atom(a, truth)
         return out
